@@ -1,5 +1,7 @@
 From Robo Require Export Prelude Str Case Utils.
-Record case := { c_n : pyint; c_ws : arr string; c_out : res (list string) }.
-Definition run (c : case) : res (list string) := get_trough_wells (c_n c) (c_ws c).
-Definition check (c : case) : bool := res_match strs_eqb (run c) (c_out c).
+(** several calls with the same wells object, one after the other (the argument must not be changed by a call) *)
+Record case := { c_ws : arr string; c_calls : list (pyint * res (list string)) }.
+Definition run (c : case) : list (res (list string)) := map (fun p => get_trough_wells (fst p) (c_ws c)) (c_calls c).
+Definition check (c : case) : bool :=
+  forallb (fun p => res_match strs_eqb (get_trough_wells (fst p) (c_ws c)) (snd p)) (c_calls c).
 Definition mask (c : case) : Z := if check c then 0%Z else 1%Z.
